@@ -20,6 +20,10 @@ impl AsFd for SharedFd {
 
 type Log = Rc<RefCell<Vec<String>>>;
 
+thread_local! {
+    static FAIL_NEXT_REGISTER: Cell<bool> = const { Cell::new(false) };
+}
+
 struct IChild {
     id: u64,
     gen: Generic<SharedFd>,
@@ -78,6 +82,11 @@ impl EventSource for IChild {
         Ok(if fired { r } else { PostAction::Continue })
     }
     fn register(&mut self, poll: &mut Poll, tf: &mut TokenFactory) -> calloop::Result<()> {
+        // injected failure (transfail cases): the child refuses this one registration
+        if FAIL_NEXT_REGISTER.with(|f| f.replace(false)) {
+            self.log.borrow_mut().push(format!("G{}:0", self.id));
+            return Err(calloop::Error::IoError(std::io::Error::new(std::io::ErrorKind::Other, "injected")));
+        }
         let r = self.gen.register(poll, tf);
         if r.is_ok() {
             self.reg = true;
@@ -286,6 +295,66 @@ fn run_case(line: &str) -> String {
     drop(disp);
     let _ = l2;
     out
+}
+
+/// A TransientSource whose child refuses one registration (C15): the failed insertion / enable() must leave the wrapper as it was, so
+/// that the same call, repeated, succeeds and the child's events are delivered.
+/// Case: `insert` (the first register_dispatcher fails) or `enable` (inserted, disabled, the first enable() fails).
+/// Output: first_err none_after_failure retry_ok delivered
+fn run_fail_case(line: &str) -> String {
+    let log: Log = Rc::new(RefCell::new(vec![]));
+    let answer = Rc::new(Cell::new(0u8));
+    let fds: Fds = Rc::new(RefCell::new(vec![]));
+    let mut event_loop: EventLoop<'static, ()> = EventLoop::try_new().expect("loop");
+    let handle = event_loop.handle();
+    let inner: TransientSource<IChild> = new_child(0, &answer, &log, &mut fds.borrow_mut()).into();
+    let disp = Dispatcher::new(
+        Obs {
+            inner,
+            log: log.clone(),
+            then: Rc::new(Cell::new(0u8)),
+            answer: answer.clone(),
+            fds: fds.clone(),
+            next_id: Rc::new(Cell::new(1u64)),
+        },
+        |_, _, _: &mut ()| {},
+    );
+    let (first_err, retry_ok);
+    let none_after_failure;
+    if line.trim() == "insert" {
+        FAIL_NEXT_REGISTER.with(|f| f.set(true));
+        first_err = handle.register_dispatcher(disp.clone()).is_err();
+        none_after_failure = disp.as_source_mut().inner.is_none();
+        retry_ok = handle.register_dispatcher(disp.clone()).is_ok();
+    } else {
+        let t = handle.register_dispatcher(disp.clone()).expect("insert");
+        handle.disable(&t).expect("disable");
+        FAIL_NEXT_REGISTER.with(|f| f.set(true));
+        first_err = handle.enable(&t).is_err();
+        none_after_failure = disp.as_source_mut().inner.is_none();
+        retry_ok = handle.enable(&t).is_ok();
+    }
+    FAIL_NEXT_REGISTER.with(|f| f.set(false));
+    let before = log.borrow().len();
+    if let Some((_, fd)) = fds.borrow().first() {
+        let _ = rustix::io::write(&**fd, &1u64.to_ne_bytes());
+    }
+    let _ = event_loop.dispatch(Some(Duration::ZERO), &mut ());
+    let delivered = log.borrow()[before..].iter().any(|l| l == "F0");
+    let out = format!(
+        "first_err={} none_after_failure={} retry_ok={} delivered={}",
+        first_err as u8, none_after_failure as u8, retry_ok as u8, delivered as u8
+    );
+    drop(event_loop);
+    drop(disp);
+    out
+}
+
+pub fn run_fail() {
+    crate::for_each_line(|l| {
+        let r = std::panic::catch_unwind(|| run_fail_case(l)).unwrap_or_else(|_| "PANIC".to_string());
+        println!("{}", r);
+    });
 }
 
 pub fn run() {
